@@ -4,12 +4,13 @@ import random
 import sys
 from vf import Case
 sys.path.insert(0, os.path.join(os.path.dirname(os.path.abspath(__file__)), ".."))
-from gen import lenp_kinds
+from gen import lenp_kinds, constants
 
 ID = "C13"
 DRIVER = "drv_streams"
 HARNESS = "h_streams"
-GEN = [lenp_kinds.gen]
+GEN = [lenp_kinds.gen, constants.gen]
+TIE = ['Ufw.Tie.Misc', 'Ufw.Tie.Varint']
 GEN_OBLIGATIONS = ["Ufw.Props.C13.kind_table_spec (sizes, maxima and octet orders of the regenerated KIND table)"]
 KINDS = ["var", "octet", "le16", "le32", "be16", "be32"]
 MAXI = {"var": 2 ** 63 - 1, "octet": 255, "le16": 65535, "be16": 65535, "le32": 2 ** 32 - 1, "be32": 2 ** 32 - 1}
